@@ -278,7 +278,7 @@ package common
 //@ func IsCompleteNeedShow
 //@   props C14
 //@   functional
-//@   trusted
+//@   assigns nothing
 //@ end
 
 // The functions that build the scope tree establish the declared type invariants of ScopeInfo / VarInfoList.
@@ -334,6 +334,7 @@ package common
 //@ func CompExp
 //@   props C20
 //@   functional
+//@   assigns nothing
 //@   ensures[equal-only-to-the-same-leaf-kind] result && (typeis(node1, "*ast.NilExp") || typeis(node1, "*ast.TrueExp") || typeis(node1, "*ast.FalseExp") || typeis(node1, "*ast.VarargExp"))
 //@        ==> (typeis(node1, "*ast.NilExp") <==> typeis(node2, "*ast.NilExp")) && (typeis(node1, "*ast.TrueExp") <==> typeis(node2, "*ast.TrueExp"))
 //@            && (typeis(node1, "*ast.FalseExp") <==> typeis(node2, "*ast.FalseExp")) && (typeis(node1, "*ast.VarargExp") <==> typeis(node2, "*ast.VarargExp"))
@@ -361,6 +362,7 @@ package common
 //@ func IsOneValueType
 //@   props C20
 //@   functional
+//@   assigns nothing
 //@   ensures[single-valued-iff-name-or-literal] result <==> (typeis(exp, "*ast.NameExp") || typeis(exp, "*ast.StringExp") || typeis(exp, "*ast.LuajitNum") || typeis(exp, "*ast.FloatExp")
 //@        || typeis(exp, "*ast.IntegerExp") || typeis(exp, "*ast.FalseExp") || typeis(exp, "*ast.TrueExp") || typeis(exp, "*ast.NilExp"))
 //@ end
@@ -369,6 +371,7 @@ package common
 //@ func GetExpName
 //@   props C20
 //@   functional
+//@   assigns nothing
 //@ end
 
 // ---- C18: which workspace files are candidates for a require/dofile argument ----
@@ -445,12 +448,12 @@ package common
 //@ func (*GlobalConfig).IsIgnoreNameVar
 //@   props C06 C07 C11
 //@   functional
-//@   trusted
+//@   assigns nothing
 //@ end
 //@ func (*GlobalConfig).IsIgnoreFileDefineVar
 //@   props C06 C07 C11
 //@   functional
-//@   trusted
+//@   assigns nothing
 //@ end
 
 //@ func (*GlobalConfig).IsGlobalIgnoreErrType
